@@ -31,13 +31,15 @@ def sumTo {R : Type} [Zero R] [Add R] : Nat → (Nat → R) → R
 /-- Python exception classes that the modelled code paths raise. -/
 inductive Err
   | valueError       -- numpy: shape mismatch in `@` / broadcasting
-  | linAlgError      -- numpy.linalg: not 2-D / not square / singular
+  | linAlgError      -- numpy.linalg: not 2-D / not square
+  | singular         -- numpy.linalg.LinAlgError("Singular matrix") (exact singularity; floats may not notice)
   | notImplemented   -- `Gaussian.cov` getter for non-`cov` parameterisations
   deriving DecidableEq, Repr, Inhabited
 
 def Err.toString : Err → String
   | .valueError => "ValueError"
   | .linAlgError => "LinAlgError"
+  | .singular => "LinAlgError:singular"
   | .notImplemented => "NotImplementedError"
 
 /-- numpy array of rank ≤ 2: shape and entry function (entries outside the shape are never read). -/
@@ -133,10 +135,10 @@ def NArr.solve [DecidableEq R] (slv : Solver R) : NArr R → NArr R → Except E
     if r ≠ c then .error .linAlgError
     else if l ≠ r then .error .valueError
     else match slv r F g with
-      | none => .error .linAlgError
+      | none => .error .singular
       | some x =>
         if (List.range r).all (fun i => decide (sumTo r (fun k => F i k * x k) = g i)) then .ok (.v r x)
-        else .error .linAlgError
+        else .error .singular
   | .m _ _ _, _ => .error .valueError
   | _, _ => .error .linAlgError
 
